@@ -24,6 +24,32 @@ def run(tier, seed):
             tr = filegen.Translator(rng, fmt=fmt, family=fam, info=info)
             execs.append({"x": "w%d" % i, "steps": tr.steps(h, filecheck.NAMES)})
             i += 1
+    # exhaustive attribute-list family: one execution per transition of the 65-state graph of global-attribute
+    # lists over 4 names (put/overwrite/rename/delete), with all names in one hash bucket or default table size
+    gen = vlib.tlc_emit("File_MC.tla", "cfg/File_att_gen.cfg", workers=1)
+    if len(gen["items"]) < 1000:
+        raise vlib.InfraError("attribute generator produced %d items" % len(gen["items"]))
+    for j, it in enumerate(gen["items"]):
+        if tier == "quick" and j % 2 == 1 and not it["chg"]:
+            continue
+        info = {"nc_hash_size_gattr": "1"} if j % 3 != 2 else None
+        tr = filegen.Translator(rng, fmt=1, family="ascii", info=info, obs=["schema"])
+        execs.append({"x": "att%d" % j, "steps": tr.steps(it["h"], ["a", "b", "c", "d"])})
+    # ... and random walks over the same operations: the library's lookup tables depend on the path taken, not only
+    # on the resulting list
+    sim = vlib.tlc_emit("File_MC.tla", "cfg/File_att_sim.cfg", simulate=300 if tier == "quick" else 5000, depth=11, seed=seed + 9, workers=4)
+    seen = set()
+    for it in sim["items"]:
+        import json as _j
+        k = _j.dumps(it["h"], sort_keys=True)
+        if k in seen:
+            continue
+        seen.add(k)
+        info = {"nc_hash_size_gattr": rng.choice(["1", "2", "1"])}
+        tr = filegen.Translator(rng, fmt=1, family="ascii", info=info, obs=["schema"])
+        execs.append({"x": "attw%d" % len(seen), "steps": tr.steps(it["h"], ["a", "b", "c", "d"])})
+        if len(seen) >= (1500 if tier == "quick" else 20000):
+            break
     return filecheck.run(PID, tier, seed, execs, mc,
                          "random walks (TLC -simulate of File_MC, depth 14-16; one generator admits failing calls, the other only "
                          "successful ones) over def_dim/def_var/put_att (new, overwrite smaller/equal/larger, any of the format's "
